@@ -137,6 +137,8 @@ pub enum HostileMut {
     /// Replace the k-th count/length field (as located by the wire reader) by `val`.
     Field { k: usize, val: u64 },
     Extend { bytes: Vec<u8> },
+    /// Consistent rewrite: some list of the object emptied together with its count.
+    Empty { which: u8 },
 }
 
 #[derive(Clone, Debug, PartialEq, Eq, Serialize, Deserialize)]
